@@ -2,12 +2,15 @@
 // appended, over histories of append / append_char / operator<< / truncate /
 // erase / move operations; storage is watched through the allocation registry
 // (in-object buffer vs. one exclusive heap block), streams live in exact-size
-// heap blocks.
+// heap blocks.  The scale phases put the same monitors on streams of 4 KiB ..
+// 4 MiB and on text arguments of up to 1 Mi units (see namespace sc).
 #include "vrt.h"
 #include "vrt_alloc.h"
 #include "vrt_st.h"
 #include "ref_unicode.h"
 #include "gen_text.h"
+#include "gen_scale.h"
+#include <filesystem>
 #include <climits>
 #include <cfloat>
 
@@ -83,7 +86,7 @@ struct Pool {
                 seen[i] = d;
                 ++heaps;
             }
-            if (S(d, n) != x.model) {
+            if (n != 0 && memcmp(d, x.model.data(), n) != 0) {
                 size_t k = 0;
                 while (k < n && d[k] == x.model[k]) ++k;
                 fail("content-differs-from-model", sfmt("stream %zu first difference at byte %zu of %zu after %s", i, k, n, after.c_str()));
@@ -134,6 +137,37 @@ static std::basic_string<T> widen(const S &utf8)
     if constexpr (sizeof(T) == 2) { std::u16string t; ref::to_utf16(d, false, t); o.assign(t.begin(), t.end()); }
     else { std::u32string t; ref::to_utf32(d, false, t); o.assign(t.begin(), t.end()); }
     return o;
+}
+
+// to_string in both interpretations and all validation modes; returns whether the content is well-formed UTF-8
+static bool to_string_monitor(Pool &p, size_t i)
+{
+    Slot &x = p.s[i];
+    SS &ss = *x.p;
+    const S &m = x.model;
+    bool valid;
+    { va::HarnessScope hs; valid = ref::utf8_ok(m); }
+    auto got = [&](bool utf8, ST::utf_validation_t v, bool &threw) {
+        S out;
+        threw = false;
+        va::LibScope ls;
+        try { ST::string t = ss.to_string(utf8, v); va::HarnessScope hs; out.assign(t.c_str(), t.size()); }
+        catch (const ST::unicode_error &) { threw = true; }
+        return out;
+    };
+    bool threw;
+    S a = got(true, ST::assume_valid, threw);
+    if (threw || a != m) p.fail("to_string:assume_valid", sfmt("stream %zu", i));
+    S b = got(true, ST::substitute_invalid, threw);
+    { va::HarnessScope hs; const S w = ref::cleanup_utf8(m); if (threw || b != w) { size_t k = 0; while (k < b.size() && k < w.size() && b[k] == w[k]) ++k;
+        p.fail("to_string:substitute_invalid", sfmt("stream %zu threw=%d got %zu bytes, want %zu; first difference at %zu: got %s want %s", i, threw, b.size(), w.size(), k,
+                                                     vrt::hex(b.data() + k, std::min<size_t>(12, b.size() - k)).c_str(), vrt::hex(w.data() + (k > 4 ? k - 4 : 0), std::min<size_t>(16, w.size() - (k > 4 ? k - 4 : 0))).c_str())); } }
+    S c = got(true, ST::check_validity, threw);
+    if (valid ? (threw || c != m) : !threw) p.fail("to_string:check_validity", sfmt("stream %zu valid=%d threw=%d", i, valid, threw));
+    S l = got(false, ST::assume_valid, threw);
+    { va::HarnessScope hs; S want; for (unsigned char ch : m) ref::enc_utf8(want, ch); if (threw || l != want) p.fail("to_string:latin1", sfmt("stream %zu", i)); }
+    if (valid) { bool t2; S e = got(true, ST::check_validity, t2); (void)e; }
+    return valid;
 }
 
 static std::string step(Pool &p, Rng &r)
@@ -321,28 +355,7 @@ static std::string step(Pool &p, Rng &r)
     }
     case 19: { va::HarnessScope hs; p.kill(x); snprintf(d, sizeof(d), "destroy ss%zu", i); vrt::count("op.destroy"); break; }
     default: {
-        // to_string in both interpretations and all validation modes
-        const S &m = x.model;
-        const bool valid = ref::utf8_ok(m);
-        auto got = [&](bool utf8, ST::utf_validation_t v, bool &threw) {
-            S out;
-            threw = false;
-            try { ST::string t = ss.to_string(utf8, v); va::HarnessScope hs; out.assign(t.c_str(), t.size()); }
-            catch (const ST::unicode_error &) { threw = true; }
-            return out;
-        };
-        bool threw;
-        S a = got(true, ST::assume_valid, threw);
-        if (threw || a != m) p.fail("to_string:assume_valid", sfmt("stream %zu", i));
-        S b = got(true, ST::substitute_invalid, threw);
-        { va::HarnessScope hs; const S w = ref::cleanup_utf8(m); if (threw || b != w) { size_t k = 0; while (k < b.size() && k < w.size() && b[k] == w[k]) ++k;
-            p.fail("to_string:substitute_invalid", sfmt("stream %zu threw=%d got %zu bytes, want %zu; first difference at %zu: got %s want %s", i, threw, b.size(), w.size(), k,
-                                                         vrt::hex(b.data() + k, std::min<size_t>(12, b.size() - k)).c_str(), vrt::hex(w.data() + (k > 4 ? k - 4 : 0), std::min<size_t>(16, w.size() - (k > 4 ? k - 4 : 0))).c_str())); } }
-        S c = got(true, ST::check_validity, threw);
-        if (valid ? (threw || c != m) : !threw) p.fail("to_string:check_validity", sfmt("stream %zu valid=%d threw=%d", i, valid, threw));
-        S l = got(false, ST::assume_valid, threw);
-        { va::HarnessScope hs; S want; for (unsigned char ch : m) ref::enc_utf8(want, ch); if (threw || l != want) p.fail("to_string:latin1", sfmt("stream %zu", i)); }
-        if (valid) { bool t2; S e = got(true, ST::check_validity, t2); (void)e; }
+        const bool valid = to_string_monitor(p, i);
         snprintf(d, sizeof(d), "ss%zu.to_string x4 (valid=%d)", i, valid);
         vrt::count(valid ? "op.to_string.valid" : "op.to_string.invalid");
         break;
@@ -350,6 +363,618 @@ static std::string step(Pool &p, Rng &r)
     }
     return d;
 }
+
+// ================================================================ scale phases
+// The same monitors (Pool::check_all, to_string_monitor) on streams of 4 KiB .. 4 MiB and on text arguments of up to 1 Mi units.
+// Lengths and the places where something happens sit on or next to multiples of scale::blocks().
+namespace sc {
+
+enum Enc { E8, E16, E32 };
+static inline size_t units(Enc e, char32_t c)
+{
+    if (e == E32) return 1;
+    if (e == E16) return c >= 0x10000 ? 2 : 1;
+    return c < 0x80 ? 1 : c < 0x800 ? 2 : c < 0x10000 ? 3 : 4;
+}
+static const char *enc_name(Enc e) { return e == E8 ? "UTF-8 bytes" : e == E16 ? "UTF-16 units" : "UTF-32 units"; }
+
+enum Bg { BG_ASCII_CONST, BG_ASCII_RANDOM, BG_TWO, BG_THREE, BG_FOUR, BG_MIXED, N_BG };
+
+// append code points to `cps` whose size in encoding `e` is exactly `n` units (ASCII filler where a character does not fit; the
+// filler goes in front of or behind the run, so that e.g. a run of surrogate pairs starts at an odd or an even unit index)
+static void fill_units(Rng &r, std::u32string &cps, Enc e, size_t n, unsigned bg, bool filler_first)
+{
+    static const char32_t two[] = {0xE9, 0xFF, 0x80, 0x7FF, 0x100}, three[] = {0x20AC, 0x800, 0xFFFF, 0xD7FF, 0xE000, 0xFFFD}, four[] = {0x1F600, 0x10000, 0x10FFFF, 0x1F9FF};
+    const char32_t c2 = r.pick(two), c3 = r.pick(three), c4 = r.pick(four);
+    const char32_t a = static_cast<char32_t>("ax _0"[r.below(5)]);
+    switch (bg) {
+    case BG_ASCII_CONST: cps.append(n, a); return;
+    case BG_ASCII_RANDOM: for (size_t k = 0; k < n; ++k) cps += static_cast<char32_t>(0x21 + r.below(0x5E)); return;
+    case BG_TWO: case BG_THREE: case BG_FOUR: {
+        const char32_t m = bg == BG_TWO ? c2 : bg == BG_THREE ? c3 : c4;
+        const size_t w = units(e, m), rem = n % w;
+        if (filler_first) cps.append(rem, a);
+        cps.append(n / w, m);
+        if (!filler_first) cps.append(rem, a);
+        return;
+    }
+    default: {
+        size_t left = n;
+        while (left) {
+            const unsigned k = static_cast<unsigned>(r.below(6));
+            char32_t c = k == 0 ? c2 : k == 1 ? c3 : k == 2 ? c4 : static_cast<char32_t>('a' + r.below(26));
+            size_t w = units(e, c);
+            if (w > left) { c = a; w = 1; }
+            cps += c;
+            left -= w;
+        }
+    }
+    }
+}
+static S enc8(const std::u32string &cps)
+{
+    S o;
+    o.reserve(cps.size() + cps.size() / 2 + 8);
+    for (char32_t c : cps) ref::enc_utf8(o, c);
+    return o;
+}
+static std::u16string enc16(const std::u32string &cps)
+{
+    std::u16string o;
+    o.reserve(cps.size() + 8);
+    for (char32_t c : cps) ref::enc_utf16(o, c);
+    return o;
+}
+// position-dependent bytes (a shifted, shortened or repeated copy does not look like the original)
+static S rand_bytes(Rng &r, size_t n, bool no_nul = false)
+{
+    S s(n, '\0');
+    size_t i = 0;
+    while (i < n) {
+        uint64_t v = r.next();
+        for (int b = 0; b < 8 && i < n; ++b, v >>= 8) { char c = static_cast<char>(v & 0xFF); if (no_nul && !c) c = 1; s[i++] = c; }
+    }
+    return s;
+}
+static S valid_prefill(Rng &r, size_t n)
+{
+    static const scale::Background kinds[] = {scale::ASCII_CONST, scale::ASCII_RANDOM, scale::ASCII_WORDS, scale::TWO_BYTE_RUN, scale::THREE_BYTE_RUN, scale::FOUR_BYTE_RUN, scale::MIXED_UTF8};
+    return scale::utf8_background(r, n, r.pick(kinds));
+}
+static size_t capacity_of(const Slot &x)
+{
+    const char *d = x.p->raw_buffer();
+    if (x.inside(d)) return ST_STACK_STRING_SIZE;
+    va::Block *b = va::find(d);
+    return b ? b->size : 0;
+}
+static void note_size(size_t n)
+{
+    if (n >= 4096) vrt::count("scale.stream>=4KiB");
+    if (n >= 65536) vrt::count("scale.stream>=64KiB");
+    if (n >= (1u << 20)) vrt::count("scale.stream>=1MiB");
+}
+
+// the per-step monitor for histories of thousands of small steps on a big stream: size, storage class and the bytes just written
+// (plus a few before them); the caller runs the full Pool::check_all whenever the buffer has moved, every 2048 steps and at the end
+static void check_tail(Pool &p, size_t i, size_t tail, const char *after)
+{
+    Slot &x = p.s[i];
+    const char *d = x.p->raw_buffer();
+    const size_t n = x.p->size();
+    vrt::evals();
+    if (n != x.model.size()) { p.fail("size-differs-from-model", sfmt("stream %zu size()=%zu model=%zu after %s", i, n, x.model.size(), after)); return; }
+    if (x.inside(d)) {
+        if (n > ST_STACK_STRING_SIZE) p.fail("in-object-buffer-overfull", sfmt("stream %zu size=%zu", i, n));
+    } else {
+        va::Block *b = va::find(d);
+        if (!b) { p.fail("buffer-not-a-live-block", sfmt("stream %zu after %s", i, after)); return; }
+        if (b->size < n || !b->is_array) p.fail("heap-block-too-small", sfmt("stream %zu size=%zu block=%zu after %s", i, n, b->size, after));
+    }
+    const size_t t = std::min(n, tail + 24);
+    if (t && memcmp(d + n - t, x.model.data() + n - t, t) != 0) {
+        size_t k = n - t;
+        while (k < n && d[k] == x.model[k]) ++k;
+        p.fail("content-differs-from-model", sfmt("stream %zu first difference at byte %zu of %zu after %s", i, k, n, after));
+    }
+}
+
+// one integer / floating-point insertion; returns the text it must have produced
+static S insert_number(SS &ss, Rng &r)
+{
+    static const long long vals[] = {0, 1, -1, 9, 10, -10, INT_MAX, INT_MIN, LLONG_MAX, LLONG_MIN, 4294967296LL, -4294967296LL, 1234567890123LL, -999999999999999999LL};
+    static const double dvals[] = {0.0, 1.5, -2.25, 1e100, 1e-100, DBL_MAX, -DBL_MAX, DBL_MIN, 123456789.0, 0.1, -123456.789};
+    const long long v = r.chance(1, 2) ? r.pick(vals) : static_cast<long long>(r.next() >> (1 + r.below(63)));
+    const unsigned k = static_cast<unsigned>(r.below(9));
+    const double dv = r.pick(dvals);
+    va::LibScope ls;
+    switch (k) {
+    case 0: ss << static_cast<int>(v); return sfmt("%d", static_cast<int>(v));
+    case 1: ss << static_cast<unsigned int>(v); return sfmt("%u", static_cast<unsigned int>(v));
+    case 2: ss << static_cast<long>(v); return sfmt("%ld", static_cast<long>(v));
+    case 3: ss << static_cast<unsigned long>(v); return sfmt("%lu", static_cast<unsigned long>(v));
+    case 4: case 5: ss << v; return sfmt("%lld", v);
+    case 6: ss << static_cast<unsigned long long>(v); return sfmt("%llu", static_cast<unsigned long long>(v));
+    case 7: ss << dv; return sfmt("%g", dv);
+    default: { const float f = static_cast<float>(dv); ss << f; return sfmt("%g", static_cast<double>(f)); }
+    }
+}
+
+// ---- text arguments
+struct Text {
+    S u8;
+    std::u16string u16;
+    std::u32string u32;
+    std::wstring w;
+    bool has_nul = false;
+};
+static unsigned n_forms(unsigned family) { return family == 0 ? 10 : 3; }
+static const char *const FAMILY[] = {"char/char8_t", "char16_t", "char32_t", "wchar_t"};
+
+template <typename T>
+static void wide_form(SS &ss, unsigned form, const std::basic_string<T> &t, Rng &r)
+{
+    switch (form) {
+    case 0: { vrt::Exact<T> e(t.data(), t.size(), true); va::LibScope ls; ss << e.data(); break; }
+    case 1: { std::basic_string<T> copy(t); va::LibScope ls; ss << copy; break; }
+    default:
+        if (r.chance(1, 2)) {      // a view over exactly the units, nothing readable behind them
+            vrt::Exact<T> e(t.data(), t.size(), false);
+            va::LibScope ls;
+            ss << std::basic_string_view<T>(e.data(), t.size());
+        } else {                   // a view that is a sub-range of a longer text
+            std::basic_string<T> all;
+            const size_t pre = r.below(4);
+            all.append(pre, T('<'));
+            all += t;
+            all.append(2, T('>'));
+            all += T(0xE9);
+            va::LibScope ls;
+            ss << std::basic_string_view<T>(all).substr(pre, t.size());
+        }
+        break;
+    }
+}
+// returns false when the form cannot carry this text (C-string forms and U+0000)
+static const char *form_name(unsigned family, unsigned form)
+{
+    static const char *const n0[] = {"<<const char*", "append(const char*)", "append(ptr,n)", "<<std::string", "<<string_view", "<<ST::string", "<<const char8_t*", "<<u8string", "<<u8string_view", "<<std::filesystem::path"};
+    static const char *const nw[] = {"<<pointer", "<<STL string", "<<STL view"};
+    return family == 0 ? n0[form] : nw[form];
+}
+static bool apply_form(SS &ss, unsigned family, unsigned form, const Text &t, Rng &r)
+{
+    if (family != 0) {
+        if (form == 0 && t.has_nul) return false;
+        if (family == 1) wide_form<char16_t>(ss, form, t.u16, r);
+        else if (family == 2) wide_form<char32_t>(ss, form, t.u32, r);
+        else wide_form<wchar_t>(ss, form, t.w, r);
+        return true;
+    }
+    const S &u = t.u8;
+    switch (form) {
+    case 0: case 1: case 6: {
+        if (t.has_nul) return false;
+        vrt::Exact<char> e(u.data(), u.size(), true);
+        va::LibScope ls;
+        if (form == 0) ss << e.data(); else if (form == 1) ss.append(e.data()); else ss << reinterpret_cast<const char8_t *>(e.data());
+        break;
+    }
+    case 2: { vrt::Exact<char> e(u.data(), u.size(), false); va::LibScope ls; ss.append(e.data(), u.size()); break; }
+    case 3: { S copy(u); va::LibScope ls; ss << copy; break; }
+    case 4: case 8: {
+        S all("<<");
+        all += u;
+        all += ">>\xC3\xA9";
+        va::LibScope ls;
+        if (form == 4) ss << std::string_view(all).substr(2, u.size());
+        else ss << std::u8string_view(reinterpret_cast<const char8_t *>(all.data()) + 2, u.size());
+        break;
+    }
+    case 5: { ST::string s = vrt::mk(u); { va::LibScope ls; ss << s; } break; }
+    case 7: { std::u8string s(reinterpret_cast<const char8_t *>(u.data()), u.size()); va::LibScope ls; ss << s; break; }
+    default: { std::filesystem::path path(u); va::LibScope ls; ss << path; break; }      // (a POSIX path keeps the bytes it is given)
+    }
+    return true;
+}
+
+static size_t pick_prefill(Rng &r)
+{
+    switch (r.below(8)) {
+    case 0: case 1: return 0;
+    case 2: return r.below(256);
+    case 3: return 255 + r.below(3);
+    case 4: case 5: return (static_cast<size_t>(1) << (9 + r.below(12))) - r.below(4);      // nearly / exactly full after k doublings
+    default: return scale::length(r, 1u << 20, 4096);
+    }
+}
+static size_t pick_margin(Rng &r)
+{
+    return r.chance(1, 3) ? r.below(40) : r.chance(1, 2) ? 1000 + r.below(70000) : 131072 + r.below(70000);
+}
+
+// One text, planted so that a multi-unit character straddles / touches a multiple of a block size, goes through every overload
+// of its family; the stream is pre-filled (empty, in-object, nearly full after k doublings, big), re-made or truncated back
+// between the overloads.
+static void text_case(uint64_t i, Rng &r)
+{
+    const std::vector<size_t> &BL = scale::blocks();
+    const uint64_t G = BL.size() * 8 * 3 * 4;
+    const uint64_t g = (i * 1247) % G;                       // a fixed permutation of the grid: every prefix of the phase samples all of it
+    const size_t B = BL[g % BL.size()];
+    size_t q = 1 + (g / BL.size()) % 8;
+    const unsigned anchor = static_cast<unsigned>((g / (BL.size() * 8)) % 3);      // 0 start of the argument, 1 its end, 2 start of the stream's buffer
+    const unsigned family = static_cast<unsigned>((g / (BL.size() * 8 * 3)) % 4);
+    const size_t CAP = vrt::opt().scale < 1.0 ? (1u << 18) : (1u << 20);           // (smaller under valgrind)
+    if (B > CAP) { vrt::count("scale.skipped_too_large"); return; }
+    if (B * q > CAP) q = 1 + (q - 1) % (CAP / B);
+    const size_t dist = q * B;
+    const Enc fe = family == 0 ? E8 : family == 1 ? E16 : E32;
+    const Enc me = anchor == 2 ? E8 : fe;                    // what the distance is measured in
+
+    static const char32_t feats[] = {0xE9, 0x7FF, 0x800, 0x20AC, 0xFFFD, 0xFFFF, 0x10000, 0x1F600, 0x10FFFF};
+    char32_t F = r.pick(feats);
+    if (me == E16 && r.chance(3, 4)) F = r.chance(1, 2) ? 0x1F600 : 0x10000 + static_cast<char32_t>(r.below(0x100000));
+    const size_t w = units(me, F);
+    size_t back = r.below(w + 1);
+    if (w > 1 && r.chance(1, 2)) back = 1 + r.below(w - 1);   // strictly inside: straddles
+    const long nd = r.chance(1, 6) ? scale::nudge(r) : 0;
+    const size_t margin = pick_margin(r);
+    auto clamp0 = [](long v) { return v < 0 ? static_cast<size_t>(0) : static_cast<size_t>(v); };
+    size_t prefix, suffix, P;
+    switch (anchor) {
+    case 0: prefix = clamp0(static_cast<long>(dist) - static_cast<long>(back) + nd); suffix = margin; P = pick_prefill(r); break;
+    case 1: prefix = margin; suffix = clamp0(static_cast<long>(dist) + static_cast<long>(back) - static_cast<long>(w) + nd); P = pick_prefill(r); break;
+    default: {
+        const size_t room = dist > back ? dist - back : 0;
+        size_t off = r.chance(1, 3) ? r.below(8) : r.chance(1, 2) ? r.below(4096) : r.below(room + 1);
+        if (off > room) off = room;
+        prefix = off;
+        P = clamp0(static_cast<long>(room - off) + nd);
+        suffix = margin;
+        break;
+    }
+    }
+    const unsigned bg1 = static_cast<unsigned>(r.below(N_BG)), bg2 = static_cast<unsigned>(r.below(N_BG));
+    std::u32string cps;
+    cps.reserve(prefix + suffix + 8);
+    fill_units(r, cps, me, prefix, bg1, r.chance(1, 2));
+    const size_t feat_index = cps.size();
+    cps += F;
+    for (size_t k = r.below(3); k-- > 0;) cps += r.chance(1, 2) ? F : r.pick(feats);       // (more multi-unit characters right behind it)
+    fill_units(r, cps, me, suffix, bg2, r.chance(1, 2));
+    Text t;
+    if (r.chance(1, 6)) {         // sized forms carry U+0000 like any other character
+        const size_t k = r.below(cps.size());
+        if (cps[k] < 0x80) { cps[k] = 0; t.has_nul = true; }
+    }
+    t.u8 = enc8(cps);
+    if (family == 1) t.u16 = enc16(cps);
+    else if (family == 2) t.u32 = cps;
+    else if (family == 3) t.w.assign(cps.begin(), cps.end());
+    const size_t arg_units = family == 0 ? t.u8.size() : family == 1 ? t.u16.size() : cps.size();
+    const S pre = valid_prefill(r, P);
+
+    Pool p;
+    p.log(sfmt("scale text: family %s, %zu units (%zu UTF-8 bytes), U+%04X (%zu %s) with %zu of its units before %s + %zu x %zu%+ld; stream pre-filled with %zu bytes",
+               FAMILY[family], arg_units, t.u8.size(), static_cast<unsigned>(F), w, enc_name(me), back,
+               anchor == 0 ? "start of the argument" : anchor == 1 ? "end of the argument -" : "start of the stream's buffer", q, B, nd, P));
+    Slot &x = p.s[0];
+    bool first = true;
+    unsigned done = 0;
+    for (unsigned form = 0; form < n_forms(family); ++form) {
+        const char *how;
+        if (first || r.chance(1, 3)) {
+            p.make(x);
+            if (P) { va::LibScope ls; x.p->append(pre.data(), P); }
+            x.model = pre;
+            how = "fresh stream";
+        } else if (anchor != 2 && r.chance(1, 4)) {
+            how = "same stream, appended behind the previous text";
+        } else {
+            { va::LibScope ls; if (r.chance(1, 2)) x.p->truncate(P); else x.p->erase(x.p->size() - P); }
+            x.model.resize(P);
+            how = "same stream, truncated back";
+            vrt::count("scale.text_into_truncated_stream");
+        }
+        first = false;
+        const size_t cap_before = capacity_of(x);
+        const std::string d = sfmt("%s %s [%zu units] (%s)", FAMILY[family], form_name(family, form), arg_units, how);
+        try {
+            if (!apply_form(*x.p, family, form, t, r)) continue;
+        } catch (const ST::unicode_error &e) {
+            p.fail("insertion-of-well-formed-text-threw", sfmt("%s: ST::unicode_error(%s)", d.c_str(), e.what()));
+        }
+        x.model += t.u8;
+        p.log(d);
+        p.check_all(d);
+        ++done;
+        vrt::count("scale.text_insertions");
+        vrt::count(sfmt("scale.text_insertions.%s", FAMILY[family]));
+        if (capacity_of(x) != cap_before) vrt::count("scale.text_insertion_grew_buffer");
+        note_size(x.model.size());
+        vrt::count("steps");
+    }
+    if (r.chance(1, 4) && x.p && x.model.size() <= (3u << 19)) {
+        const bool valid = to_string_monitor(p, 0);
+        vrt::count(valid ? "scale.to_string.valid" : "scale.to_string.invalid");
+        p.check_all("to_string");
+    }
+    vrt::count("scale.text_cases");
+    vrt::count(sfmt("scale.measured_from.%s", anchor == 0 ? "argument_start" : anchor == 1 ? "argument_end" : "stream_buffer_start"));
+    if (back > 0 && back < w && nd == 0) vrt::count("scale.character_straddles_multiple");
+    if (family == 1 && F >= 0x10000 && back == 1 && nd == 0 && anchor == 0) vrt::count("scale.surrogate_pair_straddles_multiple");
+    if (arg_units > 65536) vrt::count("scale.argument>64Ki_units");
+    if (arg_units >= (1u << 20)) vrt::count("scale.argument>=1Mi_units");
+    if (t.has_nul) vrt::count("scale.text_with_U+0000");
+    vrt::distinct(vrt::fnv1a(t.u8.data(), t.u8.size(), vrt::fnv_u64(g, 977)));
+    if (vrt::want_sample("scale") && done)
+        vrt::sample("scale", sfmt("%s | text %s | character at code point index %zu", p.history.substr(0, 330).c_str(), scale::brief(t.u8).c_str(), feat_index));
+}
+
+// ---- growth histories
+static void growth_case(uint64_t i, Rng &r)
+{
+    const std::vector<size_t> &BL = scale::blocks();
+    const uint64_t G = BL.size() * 8 * 2;
+    const uint64_t g = (i * 209) % G;
+    const size_t B = BL[g % BL.size()];
+    size_t q = 1 + (g / BL.size()) % 8;
+    const unsigned mode = static_cast<unsigned>((g / (BL.size() * 8)) % 2);        // 0: many small steps, 1: one huge step
+    const size_t CAP = vrt::opt().scale < 1.0 ? (1u << 19) : (1u << 22);
+    if (B > CAP) { vrt::count("scale.skipped_too_large"); return; }
+    if (B * q > CAP) q = 1 + (q - 1) % (CAP / B);
+    const long nd = scale::nudge(r);
+    const size_t T = static_cast<size_t>(std::max<long>(1, static_cast<long>(q * B) + nd));          // what is added ...
+    const size_t S0 = r.chance(1, 3) ? 0 : r.chance(1, 4) ? r.below(300) : scale::length(r, CAP / 4, 4096);   // ... to a stream that already holds this
+    Pool p;
+    p.log(sfmt("scale growth: %zu bytes, then %zu x %zu%+ld more %s", S0, q, B, nd, mode ? "in one step" : "in many small steps"));
+    Slot &x = p.s[0];
+    p.make(x);
+    if (S0) {
+        const S base = rand_bytes(r, S0);
+        { vrt::Exact<char> e(base.data(), S0); va::LibScope ls; x.p->append(e.data(), S0); }
+        x.model = base;
+        p.check_all("base append");
+    }
+    uint64_t reallocs = 0;
+    if (mode == 0) {
+        static const size_t counts[] = {300, 1000, 5000, 30000};
+        const size_t n = std::min(T, r.pick(counts));
+        const size_t avg = std::max<size_t>(1, T / n);
+        const bool fixed = r.chance(1, 3);
+        const S src = rand_bytes(r, T);
+        size_t pos = 0, steps = 0;
+        const char *last = x.p->raw_buffer();
+        while (pos < T) {
+            size_t len = fixed ? avg : r.below(2 * avg + 1);
+            if (len > T - pos) len = T - pos;
+            const unsigned op = static_cast<unsigned>(r.below(12));
+            const char *what = "append(ptr,n)";
+            size_t added = len;
+            if (op == 8) {          // (numbers are extra: the byte budget only counts the pieces of src)
+                const S want = insert_number(*x.p, r);
+                x.model += want;
+                added = want.size();
+                what = "<<number";
+                vrt::count("scale.small_steps.number");
+                check_tail(p, 0, added, what);
+            } else {
+                if (op == 6) { const char c = src[pos]; { va::LibScope ls; x.p->append_char(c, len); } x.model.append(len, c); what = "append_char"; }
+                else if (op == 7) { va::LibScope ls; *x.p << std::string_view(src.data() + pos, len); x.model.append(src, pos, len); what = "<<string_view"; }
+                else if (op == 9 && len == 1) { { va::LibScope ls; *x.p << src[pos]; } x.model += src[pos]; what = "<<char"; }
+                else if (op == 10) { ST::string s = vrt::mk(src.substr(pos, len)); { va::LibScope ls; *x.p << s; } x.model.append(src, pos, len); what = "<<ST::string"; }
+                else { vrt::Exact<char> e(src.data() + pos, len); { va::LibScope ls; x.p->append(e.data(), len); } x.model.append(src, pos, len); }
+                pos += len;
+                check_tail(p, 0, added, what);
+            }
+            ++steps;
+            if (x.p->raw_buffer() != last) { last = x.p->raw_buffer(); ++reallocs; p.check_all(sfmt("small step %zu (%s, %zu bytes): buffer moved", steps, what, added)); }
+            else if (steps % 2048 == 0) p.check_all(sfmt("small step %zu", steps));
+        }
+        p.log(sfmt("%zu small steps", steps));
+        p.check_all("the last small step");
+        vrt::count("scale.small_steps", steps);
+        vrt::count("steps", steps);
+        if (steps >= 10000) vrt::count("scale.histories_of>=10000_steps");
+    } else {
+        const unsigned form = static_cast<unsigned>(r.below(8));
+        static const char *const names[] = {"append(ptr,n)", "append_char", "<<std::string", "<<string_view", "<<ST::string", "<<u8string", "<<const char*", "append(const char*)"};
+        const S src = rand_bytes(r, T, form >= 6);
+        const char *last = x.p->raw_buffer();
+        switch (form) {
+        case 0: { vrt::Exact<char> e(src.data(), T); va::LibScope ls; x.p->append(e.data(), T); x.model += src; break; }
+        case 1: { { va::LibScope ls; x.p->append_char(src[0], T); } x.model.append(T, src[0]); break; }
+        case 2: { S copy(src); { va::LibScope ls; *x.p << copy; } x.model += src; break; }
+        case 3: { vrt::Exact<char> e(src.data(), T); { va::LibScope ls; *x.p << std::string_view(e.data(), T); } x.model += src; break; }
+        case 4: { ST::string s = vrt::mk(src); { va::LibScope ls; *x.p << s; } x.model += src; break; }
+        case 5: { std::u8string s(reinterpret_cast<const char8_t *>(src.data()), T); { va::LibScope ls; *x.p << s; } x.model += src; break; }
+        default: { vrt::Exact<char> e(src.data(), T, true); { va::LibScope ls; if (form == 6) *x.p << e.data(); else x.p->append(e.data()); } x.model += src; break; }
+        }
+        if (x.p->raw_buffer() != last) ++reallocs;
+        const std::string d = sfmt("%s of %zu bytes", names[form], T);
+        p.log(d);
+        p.check_all(d);
+        vrt::count("scale.huge_single_appends");
+        vrt::count("steps");
+    }
+    note_size(x.model.size());
+    if (x.model.size() == capacity_of(x)) vrt::count("scale.stream_exactly_full");
+
+    // what follows on the big stream: numbers into the nearly full buffer, moves, truncate / erase and regrowth, many big streams at once
+    for (int round = 0; round < 7; ++round) {
+        const unsigned op = static_cast<unsigned>(r.below(6));
+        std::string d;
+        if (!x.p) p.make(x);
+        switch (op) {
+        case 0: {           // fill up to the last k bytes of the buffer, then insert numbers
+            const size_t cap = capacity_of(x), k = r.below(24);
+            if (cap >= x.model.size() + k && cap - k - x.model.size() <= (1u << 22)) {
+                const size_t n = cap - k - x.model.size();
+                const char c = static_cast<char>('A' + r.below(26));
+                { va::LibScope ls; x.p->append_char(c, n); }
+                x.model.append(n, c);
+                check_tail(p, 0, n, "fill up");
+            }
+            const size_t cap_before = capacity_of(x), room = cap_before - x.model.size();
+            S all;
+            for (int m = 1 + static_cast<int>(r.below(3)); m-- > 0;) { const S want = insert_number(*x.p, r); x.model += want; all += want; all += ' '; vrt::count("scale.number_into_nearly_full_stream"); }
+            if (capacity_of(x) != cap_before) vrt::count("scale.number_grew_buffer");
+            d = sfmt("numbers %sinto a stream of %zu bytes with room for %zu", all.c_str(), x.model.size(), room);
+            break;
+        }
+        case 1: case 2: {   // moves of the big stream into / over other streams
+            const size_t j = 1 + r.below(Pool::N - 1);
+            Slot &y = p.s[j];
+            const unsigned tgt = static_cast<unsigned>(r.below(4));         // 0: construct, 1: over an empty stream, 2: over a small heap stream, 3: over a big one
+            if (tgt == 0) {
+                p.kill(y);
+                void *mem = malloc(sizeof(SS));
+                va::LibScope ls;
+                y.p = new (mem) SS(std::move(*x.p));
+            } else {
+                p.make(y);
+                if (tgt >= 2) {
+                    const size_t n = tgt == 2 ? 300 + r.below(400) : scale::length(r, 1u << 19, 4096);
+                    y.model = rand_bytes(r, n);
+                    va::LibScope ls;
+                    y.p->append(y.model.data(), n);
+                }
+                va::LibScope ls;
+                *y.p = std::move(*x.p);
+            }
+            y.model = x.model;
+            x.model.clear();
+            d = sfmt("ss%zu %s move(ss0 holding %zu bytes)", j, tgt == 0 ? "constructed from" : tgt == 1 ? "(empty) =" : tgt == 2 ? "(small heap) =" : "(big) =", y.model.size());
+            p.check_all(d);
+            vrt::count("scale.moves_of_big_streams");
+            // both are used again: the moved-from one grows from nothing, the other one continues
+            const S more = rand_bytes(r, r.chance(1, 2) ? 10 + r.below(600) : scale::length(r, 1u << 18, 1024));
+            { va::LibScope ls; x.p->append(more.data(), more.size()); }
+            x.model += more;
+            const S tail = rand_bytes(r, 1 + r.below(5000));
+            { va::LibScope ls; y.p->append(tail.data(), tail.size()); }
+            y.model += tail;
+            d += " then appends to both";
+            if (r.chance(1, 2)) {       // and back
+                va::LibScope ls;
+                *x.p = std::move(*y.p);
+                x.model = y.model;
+                y.model.clear();
+                d += ", moved back";
+            }
+            break;
+        }
+        case 3: case 4: {   // back to small (or to a grid offset), then grow again
+            const size_t n = x.model.size();
+            static const size_t small[] = {0, 1, 15, 255, 256, 257, 1024};
+            size_t z = r.chance(1, 2) ? r.pick(small) : scale::offset_any(r, n);
+            if (z > n) z = n;
+            const bool er = r.chance(1, 2);
+            { va::LibScope ls; if (er) x.p->erase(n - z); else x.p->truncate(z); }
+            x.model.resize(z);
+            d = sfmt("%s from %zu to %zu bytes", er ? "erase" : "truncate", n, z);
+            p.check_all(d);
+            const size_t T2 = scale::length(r, std::min<size_t>(CAP, 1u << 21), 4096);
+            const S src = rand_bytes(r, T2);
+            if (r.chance(1, 2)) {
+                va::LibScope ls;
+                x.p->append(src.data(), T2);
+            } else {
+                const size_t piece = 1 + T2 / (200 + r.below(800));
+                for (size_t pos = 0; pos < T2; pos += piece) { va::LibScope ls; x.p->append(src.data() + pos, std::min(piece, T2 - pos)); }
+            }
+            x.model += src;
+            d += sfmt(", regrown by %zu to %zu", T2, x.model.size());
+            vrt::count("scale.truncated_then_regrown");
+            break;
+        }
+        default: {          // several big streams alive at once, one of them destroyed and made again
+            size_t made = 0;
+            for (size_t j = 1; j < Pool::N; ++j) {
+                Slot &y = p.s[j];
+                if (y.p && r.chance(1, 2)) continue;
+                p.make(y);
+                const size_t n = scale::length(r, std::min<size_t>(CAP, 1u << 20), 4096);
+                y.model = rand_bytes(r, n);
+                { va::LibScope ls; if (r.chance(1, 2)) y.p->append(y.model.data(), n); else *y.p << y.model; }
+                ++made;
+                note_size(n);
+            }
+            if (r.chance(1, 2)) { const size_t j = 1 + r.below(Pool::N - 1); p.kill(p.s[j]); d = sfmt("%zu big streams made, ss%zu destroyed", made, j); }
+            else d = sfmt("%zu big streams made", made);
+            vrt::count("scale.big_streams_made", made);
+            break;
+        }
+        }
+        p.log(d);
+        p.check_all(d);
+        note_size(x.model.size());
+        vrt::count("steps");
+    }
+    if (x.p && x.model.size() <= (1u << 18) && r.chance(1, 2)) {
+        const bool valid = to_string_monitor(p, 0);
+        vrt::count(valid ? "scale.to_string.valid" : "scale.to_string.invalid");
+        p.check_all("to_string");
+    }
+    vrt::count("scale.growth_cases");
+    vrt::count("scale.reallocations_seen", reallocs);
+    vrt::distinct(vrt::fnv1a(p.history.data(), p.history.size(), vrt::fnv_u64(g, 983)));
+    if (vrt::want_sample("scale_growth")) vrt::sample("scale_growth", p.history.substr(0, 600));
+}
+
+// ---- to_string of big content: well-formed text with a multi-byte character on a multiple, or an ill-formed piece there
+static void to_string_case(uint64_t i, Rng &r)
+{
+    const std::vector<size_t> &BL = scale::blocks();
+    const uint64_t G = BL.size() * 8 * 4;
+    const uint64_t g = (i * 415) % G;
+    const size_t B = BL[g % BL.size()];
+    size_t q = 1 + (g / BL.size()) % 8;
+    const unsigned kind = static_cast<unsigned>((g / (BL.size() * 8)) % 4);        // bit 0: measured from the end, bit 1: ill-formed
+    const bool from_end = kind & 1, bad = kind & 2;
+    const size_t CAP = vrt::opt().scale < 1.0 ? (1u << 17) : (1u << 20);
+    if (B > CAP) { vrt::count("scale.skipped_too_large"); return; }
+    if (B * q > CAP) q = 1 + (q - 1) % (CAP / B);
+    const size_t dist = q * B;
+    static const char *const good[] = {"\xC3\xA9", "\xDF\xBF", "\xE2\x82\xAC", "\xEF\xBF\xBD", "\xF0\x9F\x98\x80", "\xF4\x8F\xBF\xBF"};
+    static const char *const ill[] = {"\x80", "\xC3", "\xE2\x82", "\xF0\x9F\x98", "\xF8", "\xFF", "\xC3\x41", "\xBF\xBF", "\xE2\x41\x82", "\xF0\x9F\x41", "\xED\xA0", "\xC0"};
+    const S piece = bad ? r.pick(ill) : r.pick(good);
+    const size_t w = piece.size(), back = r.below(w + 1);
+    const long nd = r.chance(1, 6) ? scale::nudge(r) : 0;
+    const size_t margin = pick_margin(r);
+    size_t prefix, suffix;
+    if (!from_end) { prefix = static_cast<size_t>(std::max<long>(0, static_cast<long>(dist) - static_cast<long>(back) + nd)); suffix = r.chance(1, 4) && bad ? 0 : margin; }
+    else { prefix = margin; suffix = static_cast<size_t>(std::max<long>(0, static_cast<long>(dist) + static_cast<long>(back) - static_cast<long>(w) + nd)); }
+    S content = valid_prefill(r, prefix);
+    const size_t at = content.size();
+    content += piece;
+    content += valid_prefill(r, suffix);
+    Pool p;
+    p.log(sfmt("scale to_string: %zu bytes, %s piece %s with %zu of its bytes before %s %zu x %zu%+ld", content.size(), bad ? "ill-formed" : "multi-byte", vrt::hex(piece.data(), w).c_str(), back,
+               from_end ? "end -" : "start +", q, B, nd));
+    Slot &x = p.s[0];
+    p.make(x);
+    const unsigned how = static_cast<unsigned>(r.below(3));
+    if (how == 0) { va::LibScope ls; x.p->append(content.data(), content.size()); }
+    else {
+        const size_t chunk = how == 1 ? B : 1 + r.below(5000);
+        for (size_t pos = 0; pos < content.size(); pos += chunk) { va::LibScope ls; x.p->append(content.data() + pos, std::min(chunk, content.size() - pos)); }
+    }
+    x.model = content;
+    p.check_all("appends");
+    const bool valid = to_string_monitor(p, 0);
+    p.check_all("to_string");
+    vrt::count(valid ? "scale.to_string.valid" : "scale.to_string.invalid");
+    vrt::count(valid ? "op.to_string.valid" : "op.to_string.invalid");
+    vrt::count("scale.to_string_cases");
+    note_size(content.size());
+    vrt::count("steps");
+    vrt::distinct(vrt::fnv1a(content.data(), content.size(), vrt::fnv_u64(g, 991)));
+    if (vrt::want_sample("scale_to_string")) vrt::sample("scale_to_string", sfmt("%s | content %s", p.history.c_str(), scale::brief(content, at).c_str()));
+}
+
+} // namespace sc
 
 static void body()
 {
@@ -406,6 +1031,50 @@ static void body()
             va::reg().live_lib_arrays = 0;
         }
     });
+
+    // scale: streams of 4 KiB .. 4 MiB and text arguments of up to 1 Mi units; every case index is a point of the grid
+    // block size x multiple 1..8 x (what the distance is measured from) x (overload family / way of growing)
+    auto quiescent = [](const std::function<void(uint64_t, Rng &)> &fn) {
+        return [fn](uint64_t i, Rng &r) {
+            fn(i, r);
+            if (va::reg().live_lib_arrays != 0) {
+                vrt::violation("C16:leak-at-quiescence", sfmt("%zu library-owned new[] blocks alive after all streams were destroyed", va::reg().live_lib_arrays));
+                va::reg().live_lib_arrays = 0;
+            }
+        };
+    };
+    vrt::note("scale phases: text arguments of every operator<< / append overload with a multi-unit character straddling or touching q x B units (B from 16 to 1 Mi, q = 1..8) measured from the start of the "
+              "argument, from its end and from the start of the stream's buffer; growth of streams to q x B bytes (up to 4 MiB) by 300 .. 30000 small steps or one step, then numbers into the nearly full buffer, moves, "
+              "truncate / erase and regrowth, several big streams alive; to_string of big content with a multi-byte character or an ill-formed piece at q x B from either end");
+    vrt::require("scale.text_cases", 100);
+    vrt::require("scale.text_insertions", 300);
+    vrt::require("scale.text_insertions.char/char8_t", 100);
+    vrt::require("scale.text_insertions.char16_t", 50);
+    vrt::require("scale.text_insertions.char32_t", 50);
+    vrt::require("scale.text_insertions.wchar_t", 50);
+    vrt::require("scale.character_straddles_multiple", 50);
+    vrt::require("scale.surrogate_pair_straddles_multiple", 5);
+    vrt::require("scale.argument>64Ki_units", 20);
+    vrt::require("scale.text_into_truncated_stream", 50);
+    vrt::require("scale.text_insertion_grew_buffer", 100);
+    vrt::require("scale.growth_cases", 30);
+    vrt::require("scale.small_steps", 20000);
+    vrt::require("scale.histories_of>=10000_steps", 3);
+    vrt::require("scale.number_grew_buffer", 5);
+    vrt::require("scale.huge_single_appends", 10);
+    vrt::require("scale.reallocations_seen", 100);
+    vrt::require("scale.number_into_nearly_full_stream", 20);
+    vrt::require("scale.moves_of_big_streams", 20);
+    vrt::require("scale.truncated_then_regrown", 20);
+    vrt::require("scale.big_streams_made", 20);
+    vrt::require("scale.stream>=64KiB", 50);
+    vrt::require("scale.stream>=1MiB", 5);
+    vrt::require("scale.to_string_cases", 40);
+    vrt::require("scale.to_string.valid", 20);
+    vrt::require("scale.to_string.invalid", 20);
+    vrt::phase("scale", vrt::tier_count(2016, 40000), quiescent(sc::text_case));
+    vrt::phase("scale_growth", vrt::tier_count(336, 6720), quiescent(sc::growth_case));
+    vrt::phase("scale_to_string", vrt::tier_count(672, 13440), quiescent(sc::to_string_case));
 }
 
 VRT_MAIN(body)
